@@ -1098,7 +1098,12 @@ def custom_dag(wiring, kinds, rng, tracked=(True, True), chain_vals=None):
 
 def log_case(name, b, root, seed, cls):
     c = graph_case(name, b, root, seed, cls)
-    c["adjudicate"] = [c["backward_at"]] + c["adjudicate"]
+    # after the pass every consumer count must be back to 0 and no delta pending (white-box probe)
+    n0 = len(c["instrs"])
+    live = [v.idx for v in b.vars.values() if v.live][:40]
+    for vi in live:
+        c["instrs"].append(("probe", vi))
+    c["adjudicate"] = [c["backward_at"]] + c["adjudicate"] + list(range(n0, n0 + len(live)))
     c["log_at"] = c["backward_at"]
     # consumers among user-defined nodes: (consumer instruction, operand instruction)
     edges = []
@@ -1349,6 +1354,8 @@ class History(randprog.Builder):
         w.alias = True
         w.node = self._node(v)
         w.origin_leaf = v.leaf or getattr(v, "origin_leaf", False)
+        if getattr(v, "fetched", False):
+            w.fetched = True
         self.emit(("clone", v.idx), w)
         return w
 
@@ -1362,6 +1369,16 @@ class History(randprog.Builder):
             v.tracked = True
         else:
             v.tracked = False
+
+    def probe_all(self, which=None):
+        """white-box probes (flags, consumer count, pending delta, gradient presence, strong count of the
+        buffer, recorded children flags) of every live handle; fetched gradients are skipped because in corgi
+        they share their buffer with the gradient slot while the model gives them a buffer of their own"""
+        out = []
+        for v in list(self.vars.values()):
+            if v.live and not getattr(v, "fetched", False) and (which is None or which(v)):
+                out.append(self.emit(("probe", v.idx)))
+        return out
 
     def observe_grads(self, which=None):
         for v in list(self.vars.values()):
@@ -1403,6 +1420,7 @@ def gen_C09(tier, rng):
             root = rng.choice(ops) if ops and rng.random() < 0.85 else rng.choice(h.live_vars())
             h.emit(("backward", root.idx, h.seed_for(root)))
             h.observe_grads()
+            h.probe_all()
             # the flags after the pass, read back through the public API
             for v in h.live_vars():
                 if rng.random() < 0.5:
@@ -1476,7 +1494,23 @@ def gen_C10(tier, rng):
         for _ in range(rng.randint(3, 12)):
             x = rng.random()
             ops = [v for v in h.live_vars() if v.is_op]
-            if x < 0.5 or not ops:
+            if x < 0.08 and h.live_vars(lambda v: v.leaf):
+                # the same array used as a constant: through an untracked clone, or inside a
+                # stop_tracking / start_tracking window
+                v = rng.choice(h.live_vars(lambda v: v.leaf))
+                if rng.random() < 0.5:
+                    w = h.clone(v)
+                    h.set_flag(w, "untracked")
+                    other = h.leaf(v.dims)
+                    h.result(("mul",), [w, other], v.dims, False, True, v.mag * other.mag)
+                else:
+                    was = v.tracked
+                    h.set_flag(v, "stop")
+                    other = h.leaf(v.dims, tracked=True)
+                    h.result(("add",), [v, other], v.dims, False, True, v.mag + other.mag)
+                    if was:
+                        h.set_flag(v, "start")
+            elif x < 0.5 or not ops:
                 h.step()
             elif x < 0.85:
                 # same result again, an interior node, or a result containing earlier ones
@@ -1484,6 +1518,7 @@ def gen_C10(tier, rng):
                 i = h.emit(("backward", root.idx, h.seed_for(root)))
                 passes.append(i)
                 h.observe_grads(lambda v: v.leaf or v.is_op)
+                h.probe_all()
             elif x < 0.93:
                 v = rng.choice([v for v in h.live_vars() if v.leaf or v.is_op])
                 i = h.emit((rng.choice(["cleargrad", "gradmutnone"]), v.idx))
@@ -1607,11 +1642,13 @@ def gen_C18(tier, rng):
                 for v in h.live_vars(lambda v: v.leaf):
                     if rng.random() < 0.6:
                         h.emit(("fetchgrad", v.idx))
+        h.probe_all()
         # drop every handle that is not an original leaf handle, in random order
         others = [v for v in h.live_vars() if not v.leaf]
         rng.shuffle(others)
         for v in others:
             h.drop(v)
+        h.probe_all()
         takes = []
         leaves = h.live_vars(lambda v: v.leaf)
         rng.shuffle(leaves)
@@ -1930,6 +1967,10 @@ def model_case(rng, tier):
         ins.append(("mupdate",))
         ins.append(("params",))
         pi = len(ins) - 1
+        # white-box: the batch and target handles (who still holds their buffers, counts, deltas)
+        ins.append(("probe", xi))
+        ins.append(("probe", ti))
+        ins.append(("probe", fi))
         meta["iters"].append({"x": x, "xd": in_dims, "t": t, "forward": fi, "loss": bi, "params_after": pi,
                               "double": double, "input": xi})
         # C18: once the model has moved on, the previous input is sole owner of its buffer again
@@ -2101,6 +2142,7 @@ def gen_C08(tier, rng):
             for v in h.live_vars():
                 i = h.emit(("obs", v.idx))
                 snaps.append((i, v.idx, epoch.get(v.idx, 0)))
+            h.probe_all()
         snapshot()
         for _ in range(rng.randint(3, 10)):
             x = rng.random()
@@ -2120,6 +2162,7 @@ def gen_C08(tier, rng):
                 h.emit(("backward", v.idx, h.seed_for(v, "int")))
                 i = h.emit(("fetchgrad", v.idx))
                 w = randprog.Var(i, v.dims, False, False, False, 0)
+                w.fetched = True
                 h.vars[i] = w
             elif x < 0.81 and leaves:
                 # a reshaped VIEW of a stored gradient, with no clone of the gradient itself kept alive
@@ -2132,6 +2175,7 @@ def gen_C08(tier, rng):
                 h.emit(("drop", i))
                 w = randprog.Var(j, alt, False, False, False, 0)
                 w.is_op = True
+                w.fetched = True
                 h.vars[j] = w
                 # a second contribution is accumulated while only the view shares the buffer
                 h.emit(("backward", v.idx, h.seed_for(v, "int")))
